@@ -1,6 +1,7 @@
 package props
 
 import (
+	"encoding/json"
 	"fmt"
 	"net"
 	"net/url"
@@ -173,6 +174,10 @@ func (c *c03) genClient(ch *kernel.Chooser, id string) {
 		// globs present in the registration data but the client did not opt in
 		cl.RedirectGlobs = []string{globPool[ch.Int(len(globPool))]}
 	}
+	k := world.FixtureKey("rsa", 6)
+	k.KeyID = "ro-key"
+	pub := k.Public()
+	cl.Key = &pub
 	c.w.Store.Clients[id] = cl
 }
 
@@ -366,6 +371,20 @@ func (c *c03) authorize(ch *kernel.Chooser) string {
 		v.Set("scope", "unknown-scope")
 		broken = "scope-unknown"
 	}
+	// the hostile redirect_uri may travel inside a signed request object while the plain parameter is a registered one
+	viaObject := false
+	if c.w.Conf.RequestObjectSupported && !unknown && kind != "missing" && ch.Bool(1, 6) {
+		k := world.FixtureKey("rsa", 6)
+		payload, _ := json.Marshal(map[string]any{"iss": id, "aud": []string{w.Issuer}, "client_id": id, "response_type": respType, "redirect_uri": req})
+		v.Set("request", signRaw(payload, "RS256", k.Key, "ro-key"))
+		v.Set("redirect_uri", cl.Redirects[0])
+		viaObject = true
+		broken += "+redirect-in-request-object"
+		if req == "" {
+			// an object without redirect_uri overrides nothing: the plain parameter stays the effective one
+			req, kind = cl.Redirects[0], "exact"
+		}
+	}
 	fault := ""
 	if ch.Bool(1, 6) {
 		k := ch.Range(1, 3)
@@ -384,8 +403,24 @@ func (c *c03) authorize(ch *kernel.Chooser) string {
 	r := c.b.Get(w.Issuer + "/authorize?" + v.Encode())
 	w.Store.Inject = nil
 	desc := fmt.Sprintf("authorize client=%s redirect_uri=%q (%s) type=%q broken=%s%s -> %d", id, req, kind, respType, broken, fault, statusOf(r))
+	if viaObject && r.Status == 302 && !strings.HasPrefix(r.Location, "https://op.sim/login?") && cl.Redirects[0] != req {
+		// either the object is honoured (then its redirect_uri is the effective one) or an error went to the plain
+		// parameter's registered URI (the object was ignored or failed after validation): both are judged as what they are
+		if target, _, inFrag, err := stripResponse(r.Location); err == nil {
+			plain := cl.Redirects[0]
+			if inFrag {
+				if i := strings.IndexByte(plain, '#'); i >= 0 {
+					plain = plain[:i]
+				}
+			}
+			if normalizeURI(target) == normalizeURI(plain) {
+				c.checkResponse(desc, r, cl, cl.Redirects[0], respType, unknown)
+				return desc
+			}
+		}
+	}
 	c.checkResponse(desc, r, cl, req, respType, unknown)
-	if (kind == "missing" || kind == "empty" || unknown) && r.Ex != nil && r.Ex.Panic == "" {
+	if (kind == "missing" || kind == "empty" || unknown) && !viaObject && r.Ex != nil && r.Ex.Panic == "" {
 		if r.Ex.Status < 400 || r.Ex.RespHeader.Get("Location") != "" {
 			c.o.Violate("C03", "error-page", "router"+w.Router+"/authorize", c.step, "%s: missing redirect_uri or unknown client must be answered with an error page, got %d Location=%q", desc, r.Ex.Status, r.Ex.RespHeader.Get("Location"))
 		}
